@@ -6,6 +6,8 @@ CONSTANTS
   MaxKe = 1
   MaxCases = 2
   ScDev = 1
+  MaxHist = 2
+  Bursts = {"vn", "vk", "mix"}
   Wide = FALSE
   ExtLenZeroLoops = FALSE
   NonceLenUnchecked = FALSE
